@@ -4,6 +4,7 @@ mod exec;
 mod gen;
 mod gen2;
 mod gen3;
+mod gen4;
 mod model;
 mod oracle;
 mod oracle2;
@@ -55,6 +56,7 @@ fn main() {
             let to: u64 = args[4].parse().unwrap();
             let t = std::time::Instant::now();
             let (mut steps, mut nv, mut incomplete) = (0u64, 0u64, 0u64);
+            let mut known = std::collections::BTreeMap::new();
             for i in from..to {
                 let seed = rng::run_seed(0xC0FFEE, i);
                 let prog = gen::generate(fam, seed);
@@ -66,12 +68,13 @@ fn main() {
                 }
                 let d = Digest::new(&rec);
                 for v in oracle::check_all(&d) {
+                    if let Some(k) = v.known { *known.entry(k).or_insert(0u64) += 1; continue; }
                     nv += 1;
                     if nv < 10 { println!("run {i} seed {seed}: {:?}", v); }
                 }
             }
             let n = to - from;
-            println!("{n} runs, {} steps/run, {:.3} ms/run, violations {nv}, incomplete {incomplete}", steps / n.max(1), t.elapsed().as_secs_f64() * 1000.0 / n as f64);
+            println!("{n} runs, {} steps/run, {:.3} ms/run, violations {nv}, incomplete {incomplete}, known {known:?}", steps / n.max(1), t.elapsed().as_secs_f64() * 1000.0 / n as f64);
         }
         Some("worker") => {
             let prop = &args[2];
